@@ -6,11 +6,34 @@ import impl
 import tokabs
 
 
+ALL_EXT = {"extensions": {e: {"enabled": True} for e in ("front-matter", "markdown-strikethrough", "markdown-task-list-items", "markdown-extended-autolinks",
+                                                          "markdown-disallow-raw-html", "linter-pragmas")}}
+
+
 def _abs(doc):
-    st, toks = impl.parse(doc, eos=True)
+    if isinstance(doc, tuple):          # (document, "ext"): every extension switched on
+        st, toks = impl.parse(doc[0], config=ALL_EXT, eos=True)
+    else:
+        st, toks = impl.parse(doc, eos=True)
     if st != "ok":
         return None
     return tokabs.abstract(toks)
+
+
+def ext_docs():
+    """documents full of the extensions' syntax, for the parse with every extension on: strikethrough runs in and around links,
+    images and emphasis, task list items, extended autolinks, raw HTML of the disallowed kind, front matter"""
+    import itertools
+    out = []
+    atoms = ["~~", "~", "a", " ", "*", "[", "](/u)", "x"]
+    for k in (3, 4, 5):
+        for t in itertools.product(atoms, repeat=k):
+            s = "".join(t)
+            if "~" in s and s.strip():
+                out.append(s)
+    out += ["[see ~~this](/u) page~~", "~~see [this~~ page](/u)", "![~~i](/u)~~", "~~a *b~~ c*", "*a ~~b* c~~", "[~~a~~](/u)", "[a~~][r]~~\n\n[r]: /u", "- [ ] a\n- [x] b\n  - [ ] c", "- [ ]\n- [x]", "1. [ ] ~~a~~",
+            "www.a.b/c~~d~~", "a@b.c ~~x~~", "http://a.b/~~x", "<title>~~a</title>~~", "<script>x</script> ~~y~~", "---\nt: v\n---\n~~a~~ [ ] www.x.y", "> - [ ] ~~q~~\n> www.a.b", "~~a\nb~~", "~~a~~~b~~~", "~~~\ncode\n~~~"]
+    return list(dict.fromkeys(out))
 
 
 def _nest(prefixes):
@@ -62,6 +85,8 @@ def spaces(ctx):
 def run(ctx):
     ctx.prove("Props/C04.v", ["Model/WF.v", "Proofs/WFProofs.v", "Extract/Extract.v"])
     sp = spaces(ctx)
+    ex = ext_docs()
+    sp["all-extensions-on"] = [(d, "ext") for d in (ex if ctx.tier == "thorough" else gen.sample(ex, 3000, ctx.seed + 11))]
     docs, origin = [], []
     for name, ds in sp.items():
         for d in ds:
@@ -93,7 +118,7 @@ def run(ctx):
         elif ans == "0":
             where = mirror if mirror else (None, "(the Python mirror accepts the stream)")
             bad = a[where[0]][3] if where[0] is not None and where[0] < len(a) else "end"
-            ctx.violation("wf", {"doc": docs[i]}, f"the stream is rejected at token #{where[0]}: {where[1]}; stream {[('/' if t[0] == 1 else '') + t[3] for t in a]}", group="wf-" + bad)
+            ctx.violation("wf", {"doc": docs[i]} if not isinstance(docs[i], tuple) else {"doc": docs[i][0], "extensions": "all enabled"}, f"the stream is rejected at token #{where[0]}: {where[1]}; stream {[('/' if t[0] == 1 else '') + t[3] for t in a]}", group="wf-" + bad)
         if (ans == "1") != (mirror is None):
             ctx.broke(f"the Python mirror and the extracted oracle disagree on {docs[i]!r}")
     ctx.corr_cases += len(answers)
@@ -119,7 +144,7 @@ def run(ctx):
     ]
     return ctx.finish(
         level="proof",
-        rule="every token stream of: pool + all 2-line documents over a 60-template vocabulary, 3-line container/inline documents, 12-character alphabet strings of length <= 4, trigger-line pairs, delimiter-run strings (<= 7 symbols over {*, **, _, __, a, space}), the repository's own test documents; quick = seed-selected subsets; non-trivial = a stream of more than 6 tokens; distinct by document",
+        rule="every token stream of: pool + all 2-line documents over a 60-template vocabulary, 3-line container/inline documents, 12-character alphabet strings of length <= 4, trigger-line pairs, delimiter-run strings (<= 7 symbols over {*, **, _, __, a, space}), the repository's own test documents; with every extension switched on: all strings of 3-5 atoms over {~~, ~, a, space, *, [, ](/u), x} that contain a tilde + 20 documents of task lists, autolinks, raw HTML and front matter; quick = seed-selected subsets; non-trivial = a stream of more than 6 tokens; distinct by document",
         assumptions=["documents that do not parse are C01's business", "that every document yields an accepted stream is established by running the proved oracle over the enumerated spaces, not proved"],
         extra_cov={"exhaustive": ctx.tier == "thorough"},
     )
